@@ -420,6 +420,52 @@ func runC05(c *Collector, tier string, seed int64) {
 		rjobs = append(rjobs, rj{stagesFromMask(names, 4, mask, perms[rng.Intn(24)], rng), via, ren})
 	}
 	parallel(len(rjobs), 16, func(i int) { c05CaseRen(c, rjobs[i].st, rjobs[i].via, "exh4-odd-names", rjobs[i].ren) })
+	// a chain of L stages below an entry stage, ending in a stage with two dependants one of which also depends on the
+	// other (and, in a second shape, on something below it): acyclic, 5..11 stages, in several declaration orders - the
+	// top of the chain declared last, first, in the middle; cyclic variants of the same (the last stage feeding back)
+	for L := 1; L <= 7; L++ {
+		for shape := 0; shape < 3; shape++ {
+			var st []gstage
+			st = append(st, gstage{"root", nil}, gstage{"entry", []string{"root"}})
+			prev := "entry"
+			for k := 1; k <= L; k++ {
+				n := fmt.Sprintf("a%d", k)
+				st = append(st, gstage{n, []string{prev}})
+				prev = n
+			}
+			st = append(st, gstage{"x", []string{prev}})
+			switch shape {
+			case 0:
+				st = append(st, gstage{"y", []string{prev, "x"}})
+			case 1:
+				st = append(st, gstage{"x2", []string{"x"}}, gstage{"y", []string{prev, "x2"}})
+			case 2: // a real cycle through the bottom of the chain
+				st = append(st, gstage{"y", []string{prev, "x"}})
+				st[2].deps = append(st[2].deps, "y")
+			}
+			n := len(st)
+			orders := [][]int{nil, nil, nil, nil}
+			for i := 0; i < n; i++ {
+				orders[0] = append(orders[0], i)     // as written: top first
+				orders[1] = append(orders[1], n-1-i) // bottom first
+			}
+			// the chain and what hangs below it first, root and entry last / entry last only
+			for i := 2; i < n; i++ {
+				orders[2] = append(orders[2], i)
+				orders[3] = append(orders[3], i)
+			}
+			orders[2] = append(orders[2], 0, 1)
+			orders[3] = append([]int{0}, append(orders[3], 1)...)
+			for oi, ord := range orders {
+				perm := make([]gstage, n)
+				for i, j := range ord {
+					perm[i] = st[j]
+				}
+				via := []string{"direct", "pipeline"}[(L+shape+oi)%2]
+				c05Case(c, perm, via, "deep-fan-out")
+			}
+		}
+	}
 	// random larger graphs
 	nr := 3000
 	if tier == "thorough" {
